@@ -9,6 +9,7 @@ import (
 	"os"
 	"sort"
 	"sync"
+	"sync/atomic"
 	"time"
 
 	"verif/harness/drive"
@@ -120,11 +121,20 @@ func cmdCalls(args []string) error {
 			}
 		}()
 	}
+	fed := 0
 	for i := range scs {
+		if atomic.LoadInt32(&run.Stuck) >= 20 {
+			// enough evidence; every further scenario would wait out the same timeouts
+			break
+		}
 		next <- i
+		fed++
 	}
 	close(next)
 	wg.Wait()
+	if fed < len(scs) {
+		scs, toks, exhaustive = scs[:fed], toks[:fed], false
+	}
 	wall := time.Since(start)
 	tr.Stop()
 	events := tr.Events(0)
